@@ -199,6 +199,96 @@ impl C18 {
         Cfg { cardano_pct: 85, max_txs: 3, mint_pct: 50, ..Default::default() }
     }
 
+    /// The same source through the `Workspace` facade after a random history of its operations (parse,
+    /// analyze, lower, ensure_tir, apply_args with type-correct arguments, repeated in any order): a final
+    /// `lower()` must give, for every tx, the bytes a fresh front-end pass gives.
+    fn facade_history(&self, ctx: &mut Ctx, src: &str, base: &[(String, Vec<u8>)], rng: &mut Rng) {
+        use tx3_lang::Workspace;
+        use tx3_tir::model::core::Type;
+        use tx3_tir::reduce::ArgValue;
+        let steps = 1 + rng.usize(6);
+        let mut history: Vec<String> = vec![];
+        let r = crate::panics::catch(|| {
+            let mut w = Workspace::from_string(src.to_string());
+            let mut log = vec![];
+            for _ in 0..steps {
+                match rng.below(6) {
+                    0 => {
+                        log.push(format!("parse:{}", w.parse().is_ok()));
+                    }
+                    1 => {
+                        log.push(format!("analyze:{}", w.analyze().is_ok()));
+                    }
+                    2 => {
+                        log.push(format!("lower:{}", w.lower().is_ok()));
+                    }
+                    3 => {
+                        log.push(format!("ensure_tir:{}", w.ensure_tir().is_ok()));
+                    }
+                    _ => {
+                        // arguments for the parameters the (currently held) IRs report
+                        let _ = w.ensure_tir();
+                        let mut args = std::collections::BTreeMap::new();
+                        for (n, _) in base {
+                            if let Some(t) = w.tir(n) {
+                                for (k, ty) in tx3_tir::reduce::find_params(t) {
+                                    if rng.chance(1, 4) {
+                                        continue;
+                                    }
+                                    let v = match ty {
+                                        Type::Int => ArgValue::Int(rng.range(0, 5_000_000) as i128),
+                                        Type::Bool => ArgValue::Bool(rng.bool()),
+                                        Type::Bytes => ArgValue::Bytes(rng.bytes(28)),
+                                        Type::Address => {
+                                            let mut a = vec![0x60];
+                                            a.extend(rng.bytes(28));
+                                            ArgValue::Address(a)
+                                        }
+                                        Type::UtxoRef => ArgValue::UtxoRef(tx3_tir::model::core::UtxoRef { txid: rng.bytes(32), index: rng.below(4) as u32 }),
+                                        _ => continue,
+                                    };
+                                    args.insert(k, v);
+                                }
+                            }
+                        }
+                        let n = args.len();
+                        log.push(format!("apply_args({n}):{}", w.apply_args(&args).is_ok()));
+                    }
+                }
+            }
+            let last = w.lower();
+            log.push(format!("lower:{}", match &last { Ok(()) => "true".to_string(), Err(e) => format!("false({})", crate::props::c01::err_sig(&e.to_string())) }));
+            let out: Vec<(String, Option<Vec<u8>>)> = base.iter().map(|(n, _)| (n.clone(), w.tir(n).map(|t| tx3_tir::encoding::to_bytes(t).0))).collect();
+            (log, out)
+        });
+        ctx.eval();
+        ctx.count("ir/facade-histories");
+        match r {
+            Err(p) => ctx.violation(format!("facade-{}", p.signature()), json!({"source": src, "panic": p.message})),
+            Ok((log, out)) => {
+                history = log;
+                if history.iter().any(|h| h.starts_with("apply_args(") && !h.starts_with("apply_args(0)") && h.ends_with("true")) {
+                    ctx.count("ir/facade-histories-with-applied-args");
+                }
+                if !history.last().map(|h| h == "lower:true").unwrap_or(false) {
+                    // the program is accepted (a fresh pass lowered it): the facade must lower it too
+                    ctx.violation("nondeterministic:outcome:facade-history:lower-failed", json!({"source": src, "history": history}));
+                    return;
+                }
+                for ((n, b), (_, got)) in base.iter().zip(out.iter()) {
+                    match got {
+                        Some(g) if g == b => {}
+                        Some(g) => ctx.violation(
+                            format!("nondeterministic:ir:facade-history:{}", ir_diff_node(b, g)),
+                            json!({"source": src, "tx": n, "history": history, "fresh": hex::encode(b), "after_history": hex::encode(g)}),
+                        ),
+                        None => ctx.violation("nondeterministic:ir:facade-history:tx-missing", json!({"source": src, "tx": n, "history": history})),
+                    }
+                }
+            }
+        }
+    }
+
     fn check_source(&self, ctx: &mut Ctx, src: &str, origin: &str, idx: u64, rng: &mut Rng, with_processes: bool) {
         // --- in-process repetitions
         let first = lower_all(src);
@@ -261,6 +351,7 @@ impl C18 {
                 );
             }
         }
+        self.facade_history(ctx, src, &base, rng);
         if adhoc_multi || base.len() >= 2 {
             ctx.nontrivial(fnv64(src.as_bytes()));
         }
@@ -405,7 +496,7 @@ impl Property for C18 {
         }
     }
     fn required_features(&self, _tier: Tier) -> Vec<String> {
-        ["programs/example", "programs/generated", "ir/in-process-histories", "ir/process-histories", "tii/histories", "tii/histories-with>=2-profiles", "feature/adhoc-directive-with>=2-fields", "feature/adhoc-directive-with>=4-fields", "feature/>=2-adhoc-directives"]
+        ["programs/example", "programs/generated", "ir/in-process-histories", "ir/facade-histories-with-applied-args", "ir/process-histories", "tii/histories", "tii/histories-with>=2-profiles", "feature/adhoc-directive-with>=2-fields", "feature/adhoc-directive-with>=4-fields", "feature/>=2-adhoc-directives"]
             .iter()
             .map(|s| s.to_string())
             .collect()
